@@ -147,7 +147,31 @@ func init() {
 						continue
 					}
 					setBad("refresh")
+					if _, ask := c.Req["foreignIdentity"]; ask {
+						// a refreshed token the proxy must reject also names ANOTHER identity: whatever the request is then served with
+						// (the old, re-validated session at most), it is not the identity of a token that was not accepted
+						w.idp.mu.Lock()
+						prev := w.idp.mutateClaims
+						w.idp.mutateClaims = func(k string, cl map[string]interface{}) {
+							prev(k, cl)
+							if k == "refresh" {
+								cl["email"] = "intruder@example.com"
+								cl["groups"] = []string{"admins"}
+								cl["preferred_username"] = "intruder"
+							}
+						}
+						w.idp.mu.Unlock()
+					}
 					r = w.get(jar, "/private")
+					if _, ask := c.Req["foreignIdentity"]; ask {
+						foreign := false
+						if r.UpLast != nil {
+							h := r.UpLast.Header
+							foreign = strings.Contains(h.Get("X-Forwarded-Email"), "intruder") || strings.Contains(h.Get("X-Forwarded-Groups"), "admins") ||
+								strings.Contains(h.Get("X-Forwarded-Preferred-Username"), "intruder")
+						}
+						obs["foreignIdentity"] = foreign
+					}
 					gen := -1
 					if r.UpLast != nil {
 						gen = vpGenOfToken(r.UpLast.Header.Get("X-Forwarded-Access-Token"))
